@@ -47,7 +47,10 @@ type c53fn struct {
 	opener  bool   // returns ok=false/err on failure ("fails closed" is possible)
 	extraOK bool   // stream: documented that out may be longer than in
 	lens    []int
-	mk      func(r *rand.Rand, n int, ad []byte) (*c53inst, string) // string: non-empty = oracle conflict
+	// state names, for a stateful primitive, the relation of a call of n bytes
+	// to the key stream buffered by earlier calls ("" = stateless / fresh)
+	state func(n int) string
+	mk    func(r *rand.Rand, n int, ad []byte) (*c53inst, string) // string: non-empty = oracle conflict
 }
 
 var c53Lens = []int{1, 15, 16, 17, 63, 64, 65, 200, 1000}
@@ -65,23 +68,88 @@ func arr24(b []byte) *[24]byte { var a [24]byte; copy(a[:], b); return &a }
 func c53Functions() []c53fn {
 	var fns []c53fn
 	// ---- stream ciphers ----
-	fns = append(fns, c53fn{name: "chacha20.XORKeyStream", stream: true, doc: docExactOrNone, extraOK: true, lens: c53Lens,
-		mk: func(r *rand.Rand, n int, _ []byte) (*c53inst, string) {
-			key, nonce, in := mon.Bytes(r, 32), mon.Bytes(r, 12), mon.Bytes(r, n)
-			call := func(out, in, _ []byte) ([]byte, bool) {
-				c, err := chacha20.NewUnauthenticatedCipher(key, nonce)
-				if err != nil {
-					panic("harness: " + err.Error())
+	// chacha20.Cipher is stateful: a call that does not end on a 64-byte
+	// boundary leaves key stream buffered, and the next call is served from
+	// that buffer first. The enumeration runs on a fresh cipher, after a priming
+	// XORKeyStream of 1/17/63/65/100 bytes (63/47/1/63/28 bytes buffered) and
+	// after SetCounter (fresh, and after a priming call whose buffer it drops).
+	type chachaState struct {
+		name       string
+		prime      int
+		setCounter int // -1: none
+	}
+	for _, st := range []chachaState{
+		{"chacha20.XORKeyStream", 0, -1},
+		{"chacha20.XORKeyStream[primed1]", 1, -1},
+		{"chacha20.XORKeyStream[primed17]", 17, -1},
+		{"chacha20.XORKeyStream[primed63]", 63, -1},
+		{"chacha20.XORKeyStream[primed65]", 65, -1},
+		{"chacha20.XORKeyStream[primed100]", 100, -1},
+		{"chacha20.XORKeyStream[SetCounter7]", 0, 7},
+		{"chacha20.XORKeyStream[primed17+SetCounter3]", 17, 3},
+	} {
+		st := st
+		buffered := 0
+		if st.setCounter < 0 {
+			buffered = (64 - st.prime%64) % 64
+		}
+		lens := append([]int(nil), c53Lens...)
+		if buffered > 0 {
+			for _, extra := range []int{buffered, buffered + 1} {
+				have := false
+				for _, l := range lens {
+					have = have || l == extra
 				}
-				c.XORKeyStream(out, in)
-				return out[:len(in)], true
+				if !have {
+					lens = append(lens, extra)
+				}
 			}
-			want, _ := call(make([]byte, n), append([]byte(nil), in...), nil)
-			if !bytes.Equal(want, aead8439.XOR(key, 0, nonce, in)) {
-				return nil, "chacha20 separate-buffer result differs from the RFC 8439 spec"
-			}
-			return &c53inst{in: in, want: want, wantOK: true, call: call}, ""
-		}})
+		}
+		fns = append(fns, c53fn{name: st.name, stream: true, doc: docExactOrNone, extraOK: true, lens: lens,
+			state: func(n int) string {
+				switch {
+				case st.setCounter >= 0:
+					return "after-setcounter"
+				case buffered == 0:
+					return ""
+				case n < buffered:
+					return "fits-in-buffer"
+				case n == buffered:
+					return "exhausts-buffer"
+				}
+				return "straddles-buffer"
+			},
+			mk: func(r *rand.Rand, n int, _ []byte) (*c53inst, string) {
+				key, nonce, in := mon.Bytes(r, 32), mon.Bytes(r, 12), mon.Bytes(r, n)
+				call := func(out, in, _ []byte) ([]byte, bool) {
+					c, err := chacha20.NewUnauthenticatedCipher(key, nonce)
+					if err != nil {
+						panic("harness: " + err.Error())
+					}
+					if st.prime > 0 {
+						tmp := make([]byte, st.prime)
+						c.XORKeyStream(tmp, tmp)
+					}
+					if st.setCounter >= 0 {
+						c.SetCounter(uint32(st.setCounter))
+					}
+					c.XORKeyStream(out, in)
+					return out[:len(in)], true
+				}
+				want, _ := call(make([]byte, n), append([]byte(nil), in...), nil)
+				pos := st.prime
+				if st.setCounter >= 0 {
+					pos = 64 * st.setCounter
+				}
+				ks := aead8439.Keystream(key, 0, nonce, pos+n)[pos:]
+				for i := range in {
+					if want[i] != in[i]^ks[i] {
+						return nil, "chacha20 separate-buffer result differs from the RFC 8439 key stream at the modelled position"
+					}
+				}
+				return &c53inst{in: in, want: want, wantOK: true, call: call}, ""
+			}})
+	}
 	for _, nl := range []int{8, 24} {
 		nl := nl
 		fns = append(fns, c53fn{name: fmt.Sprintf("salsa20.XORKeyStream[nonce%d]", nl), stream: true, doc: docExactOrNone, lens: c53Lens,
@@ -310,6 +378,10 @@ func c53Functions() []c53fn {
 	return fns
 }
 
+// minimum numbers of stateful chacha20 presentations (about half of what the
+// enumeration yields by construction; summed over both builds).
+var c53StateGate = map[string]int{"fits-in-buffer": 800, "exhausts-buffer": 800, "straddles-buffer": 6000, "after-setcounter": 2900}
+
 func overlap(a0, a1, b0, b1 int) bool { return a0 < a1 && b0 < b1 && a0 < b1 && b0 < a1 }
 
 // C53: exact overlap (or the documented dst prefix) = separate-buffer result;
@@ -317,7 +389,7 @@ func overlap(a0, a1, b0, b1 int) bool { return a0 < a1 && b0 < b1 && a0 < b1 && 
 func TestC53(t *testing.T) {
 	m := mon.New(t, "C53")
 	defer m.Done()
-	m.Rule("exhaustive over the stated space: for every function (chacha20.XORKeyStream, salsa20.XORKeyStream 8/24-byte nonce, xts.Encrypt/Decrypt, cipher.AEAD Seal/Open for chacha and xchacha on every path, secretbox/box(+AfterPrecomputation, Anonymous)/sign Seal|Sign and Open; salsa/salsa.XORKeyStream for exact/disjoint only) and every length in {1,15,16,17,63,64,65,200,1000} (xts: {16,32,48,64,80,208,1008}) the input sits at a fixed place of one guard-bordered arena and the output window starts at every offset -64..+64 from it, with dst prefix/capacity variations (empty prefix exact capacity, 5-byte prefix, spare capacity, capacity one byte short; stream functions: out longer than in where documented); AEAD additionally with the additional data placed at every offset -64..+64 from the output window. Expectation from the documentation, computed by the harness's own interval arithmetic: same start with the documented form (out==in, dst=in[:0]) or disjoint => no panic and the separate-buffer result; any other overlap => panic or the separate-buffer result (an authentication error from an Open-type function is recorded as failed-closed), never a wrong result without panic; no byte outside the output window may change. distinct = (function, path, length, expectation class, variation)")
+	m.Rule("exhaustive over the stated space: for every function (chacha20.XORKeyStream on a fresh cipher, on a cipher primed by a 1/17/63/65/100-byte call (63/47/1/63/28 key-stream bytes buffered; lengths equal to and one above the buffered amount are added, so calls fit in, exhaust and straddle the buffer) and after SetCounter; salsa20.XORKeyStream 8/24-byte nonce, xts.Encrypt/Decrypt, cipher.AEAD Seal/Open for chacha and xchacha on every path, secretbox/box(+AfterPrecomputation, Anonymous)/sign Seal|Sign and Open; salsa/salsa.XORKeyStream for exact/disjoint only) and every length in {1,15,16,17,63,64,65,200,1000} (xts: {16,32,48,64,80,208,1008}) the input sits at a fixed place of one guard-bordered arena and the output window starts at every offset -64..+64 from it, with dst prefix/capacity variations (empty prefix exact capacity, 5-byte prefix, spare capacity, capacity one byte short; stream functions: out longer than in where documented); AEAD additionally with the additional data placed at every offset -64..+64 from the output window. Expectation from the documentation, computed by the harness's own interval arithmetic: same start with the documented form (out==in, dst=in[:0]) or disjoint => no panic and the separate-buffer result; any other overlap => panic or the separate-buffer result (an authentication error from an Open-type function is recorded as failed-closed), never a wrong result without panic; no byte outside the output window may change. distinct = (function, path, length, expectation class, variation)")
 	m.Assume("reference = the same function on separate heap buffers, cross-checked where an independent oracle exists (RFC 8439 spec for chacha20/AEAD, libsodium " + sodiumaead.Version() + " for salsa20, secretbox, box, sign); xts has no independent oracle here (C13's concern)")
 	m.Assume("an Open-type function that returns its authentication error (no plaintext) for a forbidden overlap has failed closed: recorded (forbidden_overlap_failed_closed), not a violation — observed for the asm AEAD Open when dst overlaps only the tag bytes of the ciphertext")
 
@@ -425,12 +497,19 @@ func TestC53(t *testing.T) {
 			fault, pv = guard.Run(func() { ret, ok = inst.call(out, in, ad) })
 			m.Eval()
 			m.Count(class+"_calls", 1)
+			stateTag := ""
+			if f.state != nil {
+				stateTag = f.state(u.n)
+			}
+			if stateTag != "" {
+				m.Count("chacha20_"+stateTag+":"+class, 1)
+			}
 			if f.path != "" {
 				m.Count(f.path+"_"+class+"_calls", 1)
 			}
-			m.Distinct(fmt.Sprintf("%s n=%d %s %s", label, u.n, class, variation))
+			m.Distinct(fmt.Sprintf("%s n=%d %s %s %s", label, u.n, class, variation, stateTag))
 			wit := func() map[string]any {
-				return map[string]any{"function": label, "n": u.n, "class": class, "variation": variation,
+				return map[string]any{"function": label, "n": u.n, "class": class, "variation": variation, "cipher_state": stateTag,
 					"in_at": c53B, "in_len": inLen, "window_at": wStart, "window_len": outLen, "dst_prefix": p, "dst_cap_end": capEnd,
 					"ad_at": adStart, "ad_len": adLen, "offset_out_minus_in": wStart - c53B, "in": mon.FullHex(inst.in), "reference": mon.FullHex(inst.want)}
 			}
@@ -521,6 +600,10 @@ func TestC53(t *testing.T) {
 		m.Gate(p+"_forbidden_calls", nAEAD*len(c53Lens)*100, "AEAD calls with inexactly overlapping dst/in on the "+p+" path")
 		m.Gate(p+"_forbidden-ad_calls", nAEAD*len(c53Lens)*20, "AEAD calls with additional data overlapping the output on the "+p+" path")
 		m.Gate(p+"_disjoint_calls", nAEAD*len(c53Lens)*10, "AEAD calls with disjoint buffers on the "+p+" path")
+	}
+	for _, st := range []string{"fits-in-buffer", "exhausts-buffer", "straddles-buffer", "after-setcounter"} {
+		m.Gate("chacha20_"+st+":forbidden", c53StateGate[st], "chacha20.XORKeyStream calls with inexactly overlapping buffers on a cipher whose state is '"+st+"' (both builds)")
+		m.Gate("chacha20_"+st+":exact", c53StateGate[st]/100, "chacha20.XORKeyStream in-place calls on a cipher whose state is '"+st+"' (both builds)")
 	}
 	m.Gate("exact_calls", 2*(5*len(c53Lens)+2*len(c53XTSLens)), "exactly overlapping calls over all functions, both builds")
 	m.Gate("forbidden_calls", 2*20*len(c53Lens)*128, "inexactly overlapping calls over all functions, both builds")
